@@ -203,6 +203,7 @@ def check_c04(v: Verdict, t1_summary, n_scen, n_payloads):
     del hist["_intern"]
     bad = run_tpl_model(v, f"c04_{v.seed}", cases, flags, "TPL/C04", intern)
     report_bad(v, bad, cases, meta, flags, "TPL/C04 (templates: model outcome = implementation outcome, detailed and fast)", intern)
+    key_modes_pairwise(v, "C04", hist)
     v.coverage["input_distribution"] = hist
 
 
@@ -379,6 +380,7 @@ def check_c10(v: Verdict, t1_summary, n_scen, n_payloads):
     del hist["_intern"]
     bad = run_tpl_model(v, f"c10_{v.seed}", cases, flags, "TPL/C10", intern)
     report_bad(v, bad, cases, meta, flags, "TPL/C10 (templates with and without forbid: model outcome = implementation outcome)", intern)
+    key_modes_pairwise(v, "C10", hist)
     v.coverage["input_distribution"] = hist
 
 
@@ -640,6 +642,95 @@ def c09_key_modes_battery(v, hist):
                             v.violation("customised hooks failed on a consistent customisation", {**desc, "error": repr(e)})
                         v.count(repr(desc), True)
     hist["key_mode_cases"] = n
+
+
+def key_modes_pairwise(v, prop, hist):
+    """systematic (no randomness), for C04 and C10: one attribute x {required, __init__ argument with default, init=False with default}
+    x {own name, override(rename), use_alias with a private name, use_alias with an explicit alias} x forbid_extra_keys on/off:
+    payloads = the configured key / the attribute's own name / the alias / no key at all / a bad value / an extra key.
+    C04: the hook generated with detailed validation and the one without accept the same payloads with the same instance.
+    C10: with forbid_extra_keys a payload is rejected exactly when it has a key other than `lead` and the configured key, and the
+    error names exactly those keys; without it, adding such keys never changes the outcome."""
+    import attrs
+    from cattrs.errors import ForbiddenExtraKeysError
+    from cattrs.gen import override
+    n = 0
+
+    def forbidden(e):
+        out = []
+
+        def walk(x):
+            if isinstance(x, ForbiddenExtraKeysError):
+                out.append(frozenset(x.extra_fields))
+            for y in getattr(x, "exceptions", ()) or ():
+                walk(y)
+        walk(e)
+        return out
+    for kind in ("required", "init_default", "noinit_default"):
+        for keymode in ("name", "rename", "alias_private", "alias_explicit"):
+            for forbid in (False, True):
+                fname = "_tok" if keymode == "alias_private" else "tok"
+                fkw = {"type": int}
+                if kind != "required":
+                    fkw["default"] = 5
+                if kind == "noinit_default":
+                    fkw["init"] = False
+                if keymode == "alias_explicit":
+                    fkw["alias"] = "token"
+                cl = attrs.make_class("KP", {"lead": attrs.field(type=int), fname: attrs.field(**fkw)})
+                kw = {"_cattrs_use_alias": keymode in ("alias_private", "alias_explicit"), "_cattrs_forbid_extra_keys": forbid}
+                if kind == "noinit_default":
+                    kw["_cattrs_include_init_false"] = True
+                if keymode == "rename":
+                    kw[fname] = override(rename="renamed")
+                key = {"name": fname, "rename": "renamed", "alias_private": "tok", "alias_explicit": "token"}[keymode]
+                hooks = {}
+                for dv in (True, False):
+                    conv = Converter(detailed_validation=dv)
+                    hooks[dv] = make_dict_structure_fn(cl, conv, _cattrs_detailed_validation=dv, **kw)
+                others = sorted({fname, "tok", "token", "renamed", "zz"} - {key})
+                payloads = [{"lead": 1, key: 9}, {"lead": 1}, {"lead": 1, key: "bad"}, {key: 9}] + \
+                           [{"lead": 1, key: 9, o: 3} for o in others] + [{"lead": 1, o: 3} for o in others]
+                for p in payloads:
+                    n += 1
+                    desc = {"lane": "TPL key-modes", "attribute": kind, "key_mode": keymode, "forbid_extra_keys": forbid, "configured_key": key, "payload": repr(p)}
+                    v.count(repr((prop, desc)), True)
+                    res = {}
+                    for dv in (True, False):
+                        try:
+                            r = hooks[dv](dict(p), cl)
+                            res[dv] = ("ok", (r.lead, getattr(r, fname)))
+                        except Exception as e:
+                            res[dv] = ("err", e)
+                    if prop == "C04":
+                        same = res[True][0] == res[False][0] and (res[True][0] == "err" or res[True][1] == res[False][1])
+                        if not same:
+                            v.violation("detailed_validation changes acceptance or result",
+                                        {**desc, "detailed": repr(res[True])[:200], "fast": repr(res[False])[:200]})
+                    if prop == "C10":
+                        extras = frozenset(p) - {"lead", key}
+                        for dv in (True, False):
+                            if forbid and extras:
+                                named = forbidden(res[dv][1]) if res[dv][0] == "err" else None
+                                if named != [extras]:
+                                    v.violation("forbid_extra_keys: the payload is not rejected with exactly its unknown keys named",
+                                                {**desc, "detailed_validation": dv, "unknown_keys": sorted(extras), "outcome": repr(res[dv])[:200]})
+                            elif res[dv][0] == "err" and forbidden(res[dv][1]):
+                                v.violation("ForbiddenExtraKeysError although every key of the payload is accepted",
+                                            {**desc, "detailed_validation": dv, "outcome": repr(res[dv])[:200]})
+                        if not forbid and extras:
+                            base = {k2: p[k2] for k2 in p if k2 in ("lead", key)}
+                            for dv in (True, False):
+                                try:
+                                    r0 = hooks[dv](dict(base), cl)
+                                    b0 = ("ok", (r0.lead, getattr(r0, fname)))
+                                except Exception as e:
+                                    b0 = ("err", type(e).__name__)
+                                cur = res[dv] if res[dv][0] == "ok" else ("err", type(res[dv][1]).__name__)
+                                if cur != b0:
+                                    v.violation("without forbid_extra_keys an unknown key changed the outcome",
+                                                {**desc, "detailed_validation": dv, "with_extras": repr(cur)[:200], "without": repr(b0)[:200]})
+    hist["key_mode_pairwise_cases"] = n
 
 
 def K_of(f):
